@@ -24,11 +24,8 @@ harness (`rawdb_engine.rs: RefDb`) *and* is what the theorems below describe per
                             and never the data bytes.
 * `C01_refusals_pure`     — a refused write leaves the whole state untouched (from C13).
 
-Open (named, not hidden): the composition over the relocation paths needs the whole-layout
-invariant of C02 (destination extent disjoint from every live region) — `C01_run` for arbitrary
-histories is therefore established by the correspondence (implementation = model = reference
-byte vectors after every request), not yet by a single Lean theorem.  Level: proof of the
-per-path laws + lock-step validation of their composition.
+The composition over whole histories — the refinement to the reference byte vectors — is `Props/C01Run.lean`
+(`C01_step`, `C01_run_partial`), built on these laws and on the layout invariant of C02.
 -/
 namespace AnyDB.C01
 open AnyDB Mem
